@@ -132,11 +132,68 @@ def set_global_events(ev):
     _mon.set_events(TOOL, ev)
 
 
+# ----------------------------------------------------------------------------- shared-state lines
+
+_MUTATORS = frozenset(['setdefault', 'append', 'extend', 'insert', 'pop', 'popitem', 'clear', 'update', 'add',
+                       'discard', 'remove', 'sort', 'reverse', '__setitem__', '__delitem__'])
+_STORES = frozenset(['STORE_ATTR', 'STORE_SUBSCR', 'DELETE_ATTR', 'DELETE_SUBSCR'])
+_HOT_CACHE = {}
+
+
+def _shared_object(v):
+    """A module-level object that calls could communicate through (not functions, classes, modules,
+    immutable constants or bound C methods such as compiled regex matchers)."""
+    if v is None or isinstance(v, (type, types.FunctionType, types.BuiltinFunctionType, types.ModuleType,
+                                   types.MethodType, str, bytes, int, float, tuple, frozenset)):
+        return False
+    if isinstance(v, (dict, list, set, bytearray)):
+        return True
+    return not callable(v)
+
+
+def hot_lines(code, globs):
+    """Lines of `code` that read or write state shared between calls: stores to globals, any use of a
+    module-level mutable object, and -- in functions that are not rule bodies -- stores into
+    attributes or items of whatever they hold.  A schedule that pre-empts at and right after such
+    lines lands inside check-then-act and publish-before-complete windows.  On the unchanged tree
+    this is the driver's memo stores, the finaliser's metadata writes and the entry points."""
+    import dis
+    key = code          # the same code always lives in module dicts of the same shape
+    hit = _HOT_CACHE.get(key)
+    if hit is not None:
+        return hit
+    by_line = {}
+    line = code.co_firstlineno
+    for ins in dis.get_instructions(code):
+        if ins.starts_line is not None:
+            line = ins.starts_line
+        by_line.setdefault(line, []).append(ins)
+    name = code.co_name
+    rule_body = name.startswith(('_try_', '_parse_function', '_raise_error'))
+    out = set()
+    for line, inss in by_line.items():
+        ops = [i.opname for i in inss]
+        if 'STORE_GLOBAL' in ops or 'DELETE_GLOBAL' in ops:
+            out.add(line)
+            continue
+        if any(i.opname == 'LOAD_GLOBAL' and _shared_object(globs.get(i.argval)) for i in inss):
+            out.add(line)
+            continue
+        if not rule_body and (any(o in _STORES for o in ops)
+                              or any(i.opname in ('LOAD_ATTR', 'LOAD_METHOD') and i.argval in _MUTATORS for i in inss)):
+            out.add(line)
+    res = frozenset((code, ln) for ln in out)
+    if len(_HOT_CACHE) > 5000:
+        _HOT_CACHE.clear()
+    _HOT_CACHE[key] = res
+    return res
+
+
 # ----------------------------------------------------------------------------- tasks
 
 class Task:
     __slots__ = ('i', 'sem', 'local', 'done', 'deadline', 'fn', 'thread', 'ident',
-                 'label', 'error', 'started')
+                 'label', 'error', 'started', 'where', 'after_hot')
 
     def __init__(self, i, fn):
         self.i = i
@@ -150,6 +207,8 @@ class Task:
         self.label = ''
         self.error = None
         self.started = False
+        self.where = '<not-started>'     # code name at which this task is parked
+        self.after_hot = False
 
 
 def _on_line(code, line):
@@ -184,6 +243,9 @@ class Sim:
         self.switches = []      # [from, local_step, to]  (local_step == -1: hand-over at task end)
         self.log = []           # event log for the determinism digest
         self.sig = []           # schedule signature material
+        self.pairs = set()      # overlap pairs: (code the pre-empted task was in, code the resumed task is parked in)
+        self.hot = set()        # (code, line) touching state shared between calls (hot_lines)
+        self.hot_hits = 0
         self._main = threading.Semaphore(0)
         self.failed = None
 
@@ -255,6 +317,8 @@ class Sim:
         self.switches.append([t.i, t.local, o.i])
         self.log.append(('sw', self.step, t.i, o.i, name, line))
         self.sig.append((t.i, t.label, name, line))
+        self.pairs.add((name, o.where))
+        t.where = name
         self.cur = o
         o.sem.release()
         t.sem.acquire()
@@ -406,8 +470,12 @@ class PCT(Policy):
 
 
 class Targeted(Policy):
-    """Switch where in-flight state exists: in the driver, the finaliser, the line map
-    builder, the module installer, and right after a user callback returned."""
+    """Window injection.  At a line that reads or writes state shared between calls (Sim.hot, from
+    hot_lines()) and at the line right after it, pre-empt -- with high probability the first time
+    the line is reached in the run, with low probability afterwards -- and let the other client
+    run one whole operation *uninterrupted* inside that window before the pre-empted client
+    resumes.  Exposes check-then-act, lazy initialisation and publish-before-complete windows
+    whenever the other client's operation touches the same state."""
     name = 'targeted'
     HOT = frozenset(['_run', '_finalize_parse_info', '_map_index_to_line_and_column',
                      '_get_line_and_column', '_extract_excerpt', '_install_module',
@@ -415,8 +483,11 @@ class Targeted(Policy):
 
     def __init__(self, rng, q):
         self.rng = rng
-        self.q = q
+        self.q = q                  # probability at a first visit; q/10 afterwards
         self.pending = False
+        self.grace = None           # the client that currently runs uninterrupted
+        self.back = None
+        self.seen = set()
 
     def begin(self, sim):
         sim.next_check = 0
@@ -427,13 +498,124 @@ class Targeted(Policy):
     def request(self):
         self.pending = True
 
+    def _inject(self, sim, t):
+        o = sim.others(t)
+        if not o:
+            return None
+        o = self.rng.choice(o)
+        self.grace, self.back = o, t
+        return o
+
     def on_step(self, sim, t, code, line):
+        if self.grace is t:
+            return None
         if self.pending:
             self.pending = False
-            if self.rng.random() < 0.5:
-                o = sim.others(t)
-                return self.rng.choice(o) if o else None
-        if code.co_name in self.HOT and self.rng.random() < self.q:
+            if self.rng.random() < 0.3:
+                return self._inject(sim, t)
+        key = (code, line)
+        hot = key in sim.hot
+        if hot or t.after_hot:
+            t.after_hot = hot
+            sim.hot_hits += 1
+            first = key not in self.seen
+            self.seen.add(key)
+            if self.rng.random() < (self.q if first else self.q * 0.1):
+                return self._inject(sim, t)
+            return None
+        if code.co_name in self.HOT and self.rng.random() < self.q * 0.05:
+            return self._inject(sim, t)
+        return None
+
+    def _resume(self, sim, t):
+        self.grace = None
+        b = self.back
+        self.back = None
+        if b is not None and not b.done and b is not t:
+            return b
+        return None
+
+    def on_boundary(self, sim, t):
+        if self.grace is t and t.local > 1:
+            # the injected client has finished one whole operation: back to the pre-empted one
+            return self._resume(sim, t)
+        if self.grace is None and self.rng.random() < 0.2:
+            o = sim.others(t)
+            if o:
+                return self.rng.choice(o)
+        return None
+
+    def on_end(self, sim, t):
+        if self.grace is t:
+            b = self._resume(sim, t)
+            if b is not None:
+                return b
+        o = [x for x in sim.tasks if not x.done]
+        return self.rng.choice(o) if o else None
+
+    def describe(self):
+        return {'policy': self.name, 'q': self.q}
+
+
+class OneShot(Targeted):
+    """One window injection per run, at the j-th shared-state line event (j drawn uniformly by the
+    planner): the other client runs one whole operation inside that window.  Early injections
+    'use up' first-use races (the injected operation initialises everything), so exactly one
+    injection at a uniformly chosen point gives every window the same chance."""
+    name = 'one-shot'
+
+    def __init__(self, rng, j):
+        Targeted.__init__(self, rng, 0.0)
+        self.j = j
+        self.count = 0
+        self.fired = False
+
+    def on_step(self, sim, t, code, line):
+        if self.grace is t or self.fired:
+            return None
+        key = (code, line)
+        hot = key in sim.hot
+        if hot or t.after_hot:
+            t.after_hot = hot
+            sim.hot_hits += 1
+            self.count += 1
+            if self.count == self.j:
+                self.fired = True
+                return self._inject(sim, t)
+        return None
+
+    def on_boundary(self, sim, t):
+        if self.grace is t and t.local > 1:
+            return self._resume(sim, t)
+        return None
+
+    def describe(self):
+        return {'policy': self.name, 'j': self.j}
+
+
+class FirstVisit(Policy):
+    """Pre-empt where a line of the system under test is executed for the first time in this run
+    (by any client): lazy initialisation, check-then-act on shared state and publish-before-
+    complete all live in code that runs once."""
+    name = 'first-visit'
+
+    def __init__(self, rng, q):
+        self.rng = rng
+        self.q = q
+        self.seen = set()
+
+    def begin(self, sim):
+        sim.next_check = 0
+
+    def first(self, sim):
+        return self.rng.choice(sim.tasks)
+
+    def on_step(self, sim, t, code, line):
+        key = (code, line)
+        if key in self.seen:
+            return None
+        self.seen.add(key)
+        if self.rng.random() < self.q:
             o = sim.others(t)
             return self.rng.choice(o) if o else None
         return None
